@@ -58,6 +58,13 @@ Theorem C14_only_grows : forall fl ops1 ops2,
 Proof. exact only_grows. Qed.
 Print Assumptions C14_only_grows.
 
+(** the persisted dataset record carries every field of the live one (id, public namespaces, kind, proxy / virtual
+    configuration) after every operation, for every variant and every history *)
+Theorem C14_record_complete : forall fl ops,
+  let s := h_dm (fst (run fl ops hub_init)) in m_reg s = d_reg s.
+Proof. exact record_complete. Qed.
+Print Assumptions C14_record_complete.
+
 (** correspondence link: a case (clean restarts) on which the implementation agrees with the repaired model
     satisfies the executable spec *)
 Theorem C14_agree_implies_spec : forall fl c,
@@ -127,7 +134,7 @@ Example C14_nonvacuous_sound : sound fl_fixed.
 Proof. repeat split. Qed.
 
 Definition demo_hist : list hop :=
-  [HDm (DCreate 1 []); HDm (DCreate 2 [1]);
+  [HDm (DCreate 1 plain_cfg); HDm (DCreate 2 {| g_pub := [1]; g_kind := 0; g_cfg := 0 |});
    HDm (DPost 1 false 0 false [{| w_e := 1; w_v := 10; w_t := -1; w_del := false |};
                                {| w_e := 2; w_v := 11; w_t := 1; w_del := false |}]);
    HJob (JAdd 0 {| j_paused := false; j_src := 1; j_sink := 2; j_delay := Some 5 |});
@@ -135,14 +142,16 @@ Definition demo_hist : list hop :=
    HSec (OpRegister "a"); HSec (OpSetAcl "a" [ac_of_code 0; ac_of_code 5]); HSec (OpDelAcl "b");
    HProv (PAdd 0 1); HProv (PAdd 10 2);
    HDm (DPost 2 true 1 false [{| w_e := 1; w_v := 10; w_t := -1; w_del := false |}]);
+   HDm (DCreate 5 {| g_pub := []; g_kind := 1; g_cfg := 7 |}); HDm (DRename 5 6);
    HDm (DDelete 1)].
 
 (** the demo history really builds state in every subsystem (the copy job moved its token to 2, the sink holds the
-    two entities, a full sync is open on it, ids 0..7 are assigned), and under the pinned flags a restart after it is visible *)
+    two entities, a full sync is open on it, a proxy dataset was renamed and its stored record kept kind and configuration, ids 0..10 are assigned), and under the pinned flags a restart after it is visible *)
 Example C14_nonvacuous_state :
   let h := fst (run fl_fixed demo_hist hub_init) in
-  d_jtok (h_job h) = [(0, 2)] /\ map fst (m_reg (h_dm h)) = [-1; 2] /\ m_del (h_dm h) = [2]
-  /\ List.length (d_ids (h_dm h)) = 8%nat /\ amem 3 (m_fs (h_dm h)) = true
+  d_jtok (h_job h) = [(0, 2)] /\ map fst (m_reg (h_dm h)) = [-1; 2; 6] /\ m_del (h_dm h) = [2]
+  /\ assoc 6 (d_reg (h_dm h)) = Some {| r_id := 4; r_pub := []; r_kind := 1; r_cfg := 7 |}
+  /\ List.length (d_ids (h_dm h)) = 11%nat /\ amem 3 (m_fs (h_dm h)) = true
   /\ obs ["a"%string] (reopen fl_fixed false h) = obs ["a"%string] h
   /\ (let h' := fst (run fl_current demo_hist hub_init) in
       obs ["a"%string] (reopen fl_current false h') <> obs ["a"%string] h').
@@ -150,7 +159,7 @@ Proof. vm_compute. repeat split; discriminate. Qed.
 
 (** a case built from the model's own predictions agrees with the repaired model and meets the spec *)
 Definition demo_case : tcase :=
-  let ops := demo_hist ++ [HRestart false; HDm (DCreate 1 []); HJob (JRun 0); HRestart false] in
+  let ops := demo_hist ++ [HRestart false; HDm (DCreate 1 plain_cfg); HJob (JRun 0); HRestart false] in
   let '(h, rs, ps) := run_obs fl_fixed ["a"%string] ops hub_init in
   let '(hr, rrs) := run fl_fixed (strip ops) hub_init in
   {| c_ops := ops; c_clients := ["a"%string]; o_res := rs; o_pairs := ps; o_full := map same ps;
